@@ -493,8 +493,15 @@ impl BigDecimal {
                 let (mut q, r) = self.int_val.div_rem(&p);
 
                 // check for "leading zero" in remainder term; otherwise round
+                // (round the magnitude, so negative values round away from zero too)
+                let r_is_negative = r.is_negative();
+                let r = r.abs();
                 if p < 10 * &r {
-                    q += get_rounding_term(&r);
+                    if r_is_negative {
+                        q -= get_rounding_term(&r);
+                    } else {
+                        q += get_rounding_term(&r);
+                    }
                 }
 
                 BigDecimal {
